@@ -304,7 +304,7 @@ pub fn c16(tier: Tier) -> i32 {
         Tier::Quick => {
             let b = build_menu(&[None, Some(2)], &[None, Some(1)], 1);
             for (m, d) in [(Metric::Euclidean, 2usize), (Metric::DotProduct, 3), (Metric::Cosine, 2), (Metric::BqManhattan, 65), (Metric::Manhattan, 1), (Metric::BqEuclidean, 2), (Metric::BqCosine, 3)] {
-                runs.push((cfg(m, d, 4, b.clone(), vec![4, 1], obs.clone(), &format!("forward-{}-d{d}", m.short())), caps(6)));
+                runs.push((cfg(m, d, 5, b.clone(), vec![5, 1], obs.clone(), &format!("forward-{}-d{d}", m.short())), caps(6)));
             }
         }
         Tier::Thorough => {
@@ -330,8 +330,9 @@ pub fn c17(tier: Tier) -> i32 {
     let mut runs: Vec<(HistCfg, Caps)> = Vec::new();
     match tier {
         Tier::Quick => {
-            let b = build_menu(&[None, Some(2)], &[Some(1)], 1);
-            runs.push((cfg(Metric::Cosine, 2, 4, b, vec![4, 1], obs.clone(), "cosine-d2"), caps(25)));
+            let b = build_menu(&[None, Some(2)], &[None, Some(1)], 1);
+            runs.push((cfg(Metric::Cosine, 2, 5, b.clone(), vec![5, 2], obs.clone(), "cosine-d2"), caps(25)));
+            runs.push((cfg(Metric::Cosine, 65, 4, b, vec![4, 1], obs.clone(), "cosine-d65"), caps(15)));
         }
         Tier::Thorough => {
             let b = build_menu(&[None, Some(1), Some(3)], &[None, Some(1), Some(2)], 1);
